@@ -82,7 +82,7 @@ class C08(Prop):
                    'values are JSON-native (int/str/bool/null): type fidelity of the checkpoint encoding is C07']
     REAL_VS_STUB = {'real': ['dataflows Flow/checkpoint/stream/unstream', 'CPython TextIOWrapper/BufferedWriter buffering', 'kernel file system (tmpfs)'],
                     'stub': ['io.FileIO subclass counting/aborting raw writes', 'os.rename/unlink/makedirs wrappers', 'process death = os._exit(77) in a forked child']}
-    PROBES = ['crash-between-close-and-rename', 'crash-inside-last-resource', 'torn-write-landed', 'final-file-present-after-fault',
+    PROBES = ['row-function-raises-StopIteration', 'crash-between-close-and-rename', 'crash-inside-last-resource', 'torn-write-landed', 'final-file-present-after-fault',
               'two-checkpoints-first-complete-second-not', 'fault-not-reached', 'io-error-at-rename', 'io-error-at-close',
               'recovery-from-complete-checkpoint', 'recovery-from-scratch', 'empty-resource', 'sweep-complete', 'healthy-run-before-failed-run-was-finalised']
     TIERS = {'quick': dict(runs=700, wall=100, run_wall=300),
@@ -100,9 +100,11 @@ class C08(Prop):
             t = T.gen_table(rng, 'res_%d' % (i + 1), n, types, id_start=idc, words=T.WORDS if rng.random() < 0.3 else T.SIMPLE_WORDS)
             idc += n
             tabs.append(t)
-        shape = rng.choice(['one', 'one', 'one-tail', 'mid-one', 'two', 'two-tail'])
+        shape = rng.choice(['one', 'one', 'one-tail', 'mid-one', 'two', 'two-tail', 'rmid-one', 'two-rmid'])
         links = {'one': ['cp:a'], 'one-tail': ['cp:a', 'tail'], 'mid-one': ['mid', 'cp:a'],
-                 'two': ['cp:a', 'mid', 'cp:b'], 'two-tail': ['cp:a', 'mid', 'cp:b', 'tail']}[shape]
+                 'two': ['cp:a', 'mid', 'cp:b'], 'two-tail': ['cp:a', 'mid', 'cp:b', 'tail'],
+                 # a plain row function upstream of a checkpoint (it may fail with StopIteration)
+                 'rmid-one': ['rmid', 'cp:a'], 'two-rmid': ['cp:a', 'rmid', 'cp:b']}[shape]
         spec = {'tables': tabs, 'links': links}
         sc = {'spec': spec, 'bufsize': rng.choice([None, None, 16, 64, 256])}
         sweep_p = 0.02 if tier == 'quick' else 0.25
@@ -147,7 +149,11 @@ class C08(Prop):
             ti = rng.randrange(len(tabs))
             n = len(tabs[ti]['rows'])
             row = rng.choice(['end', 0, n - 1, n // 2]) if n else 'end'
-            return {'kind': 'step', 'at': rng.choice(steps), 'res': ti, 'row': row}
+            at = rng.choice(steps)
+            f = {'kind': 'step', 'at': at, 'res': ti, 'row': row}
+            if at.startswith('r') and rng.random() < 0.6:
+                f['exc'] = 'StopIteration'
+            return f
         ti = rng.randrange(len(tabs))
         n = len(tabs[ti]['rows'])
         return {'kind': 'source', 'res': ti, 'row': rng.choice([0, n, n // 2, max(0, n - 1)])}
@@ -291,6 +297,8 @@ class C08(Prop):
                 plan = [{'k': k, 'kind': 'ioerror', 'errno': fault.get('errno', 'EIO'), 'frac': fault.get('frac', 0.0)}]
             elif fault['kind'] == 'step':
                 faults['step'] = fault
+                if fault.get('exc') == 'StopIteration':
+                    ctx.probe('row-function-raises-StopIteration')
             else:
                 faults['source'] = fault
             r = ctx.subrun(_run, {'spec': spec, 'faults': faults}, setup=_setup(plan, bufsize))
